@@ -90,7 +90,7 @@ def check(prog, rep):
     if gradient_arm_terms is not None:
         tr = gradient_arm_terms(prog, prog.func(PAIRS[0][1]))
         ti = gradient_arm_terms(prog, prog.func(PAIRS[0][2]))
-        for key in sorted(set(tr) & set(ti)):
+        for key in sorted(k for k in set(tr) & set(ti) if not k.endswith('@line')):
             same = tr[key].eq(ti[key])
             rep.ob("R15.2", f"gradient[{key}]", same, "recursive and iterative walker build the same derivative term" if same else f"the two walkers build different derivative terms for {key}", loc=prog.func(PAIRS[0][2]).loc, detail="term")
 
